@@ -28,6 +28,7 @@ use rustc_hir::def::DefKind;
 use rustc_hir::def_id::{DefId, LocalDefId};
 use rustc_index::IndexVec;
 use rustc_interface::interface;
+use rustc_middle::ty::TypeVisitableExt;
 use rustc_middle::mir::{
     self, AggregateKind, BasicBlock, Body, Const, ConstValue, Operand, Place,
     ProjectionElem, Promoted, Rvalue, StatementKind, TerminatorKind,
@@ -111,7 +112,7 @@ impl Callbacks for Cb {
                 let _ = tcx.mir_borrowck(owner);
             }
         }
-        let mut ex = Extractor { tcx, krate: krate.clone() };
+        let mut ex = Extractor { tcx, krate: krate.clone(), captured: HashMap::new() };
         let json = ex.run();
         let features = std::env::var("DCFACTS_TAG").unwrap_or_else(|_| "x".into());
         let path = format!("{}/{}.{}.json", self.out_dir, krate, features);
@@ -160,6 +161,7 @@ fn opt_s(s: Option<String>) -> String {
 struct Extractor<'tcx> {
     tcx: TyCtxt<'tcx>,
     krate: String,
+    captured: HashMap<LocalDefId, Captured>,
 }
 
 impl<'tcx> Extractor<'tcx> {
@@ -229,7 +231,8 @@ impl<'tcx> Extractor<'tcx> {
     fn run(&mut self) -> String {
         let tcx = self.tcx;
         let mut bodies = Vec::new();
-        let captured = BODIES.lock().unwrap().take().unwrap_or_default();
+        self.captured = BODIES.lock().unwrap().take().unwrap_or_default();
+        let captured = &self.captured;
         let mut keys: Vec<LocalDefId> = captured.keys().copied().collect();
         keys.sort_by_key(|k| self.path(k.to_def_id()));
         for k in keys {
@@ -742,6 +745,42 @@ impl<'tcx> Extractor<'tcx> {
                             }
                         }
                         let _ = write!(extra, ",\"callee_crate\":{}", esc(tcx.crate_name(def.krate).as_str()));
+                        // a generic function of this crate called with concrete type arguments: how the trait-method calls
+                        // inside it resolve under THESE arguments (used when the rules inline the helper)
+                        if let Some(ld) = def.as_local() {
+                            if gargs.iter().any(|a| a.as_type().is_some()) && !gargs.has_non_region_param() {
+                                if let Some(c) = self.captured.get(&ld) {
+                                    let cb: &Body<'tcx> = unsafe { std::mem::transmute(&c.body) };
+                                    let fe = ty::TypingEnv::fully_monomorphized();
+                                    let mut ms = Vec::new();
+                                    for (bb, data) in cb.basic_blocks.iter_enumerated() {
+                                        let Some(term) = &data.terminator else { continue };
+                                        let TerminatorKind::Call { func: Operand::Constant(c2), .. } = &term.kind else { continue };
+                                        let ty::FnDef(d2, g2) = c2.const_.ty().kind() else { continue };
+                                        if tcx.trait_of_assoc(*d2).is_none() {
+                                            continue;
+                                        }
+                                        let g2i = ty::EarlyBinder::bind(*g2).instantiate(tcx, gargs);
+                                        let Ok(g2n) = tcx.try_normalize_erasing_regions(fe, g2i) else { continue };
+                                        let ga2: Vec<String> = g2n.iter().map(|a| {
+                                            let s = self.p(|| format!("{}", a));
+                                            esc(&self.fix(s))
+                                        }).collect();
+                                        let mut res = String::from("null");
+                                        if let Ok(Some(inst)) = ty::Instance::try_resolve(tcx, fe, *d2, g2n) {
+                                            let rd = inst.def_id();
+                                            if rd != *d2 {
+                                                res = esc(&self.path(rd));
+                                            }
+                                        }
+                                        ms.push(format!("[{},{},{}]", Self::bb(bb), res, arr(ga2)));
+                                    }
+                                    if !ms.is_empty() {
+                                        let _ = write!(extra, ",\"mono\":{}", arr(ms));
+                                    }
+                                }
+                            }
+                        }
                     }
                 }
                 let a: Vec<String> = args.iter().map(|a| self.operand(&a.node, te)).collect();
